@@ -133,7 +133,9 @@ def self_owning(ctx, db):
             if obj and obj not in a:
                 bad = bad or ('the callback does not receive the helper\'s own future', tr)
         ctx.ob(rid, lf, lf['key'], bad is None, 'future_with_cb: callback once, then delete once, nothing after' + ('' if not bad else ' -- ' + bad[0]), desc=bad[0] if bad else None)
-    fins = [f for f in db.all_instances() if f['nname'].startswith('cocls::discard') and f['nname'].endswith('::fin')]
+    # the resume function of discard's awaiter: whatever its constructor installs (a named static member or a capture-less lambda)
+    ctors = [f for f in db.all_instances() if f['nname'].startswith('cocls::discard') and f['nname'].endswith('::Awt::Awt')]
+    fins = resume_bodies(db, ctors) or [f for f in db.all_instances() if f['nname'].startswith('cocls::discard') and f['nname'].endswith('::fin')]
     if not fins:
         raise Broken('discard::Awt::fin not found')
     f = fins[0]
